@@ -59,13 +59,24 @@ def run(ctx):
         "loom explores the REAL code but only under its own bounded C11 approximation; it is recorded as support and "
         "never counted as a discharged proof obligation",
     ]
-    ctx.explanation = ("PARTIAL proof. The Lean theorems (QuicProofs.Props.C17Spsc) are about an RA semantics defined in Lean: "
-                       "slot accesses of the spsc ring (no race / no read of an unwritten slot / no overwrite of an unread "
-                       "slot), the sequential FIFO / exactly-once behaviour incl. the two-sided close, and the abstract "
-                       "check/register/re-check vs publish/wake handshake (no lost wake-up). Tied to the code by the "
-                       "SyncOrderings bridge (orderings + call order), by differential runs of the real single-threaded "
-                       "channel, and supported by loom on the real code. A bridge failure triggers a bounded schedule "
-                       "search in the model with the re-extracted orderings; a found schedule is reported as the failing input.")
+    ctx.explanation = ("PARTIAL proof. QuicProofs.Props.C17Spsc proves, for an operational release/acquire view machine DEFINED IN "
+                       "LEAN (QuicModel/Sync/RaMachine.lean) and hand-transcribed step programs of sync/spsc/{state,send,recv,slice}.rs, "
+                       "by induction over ALL interleavings and ALL stale-read choices, any capacity >= 2 and any number of items, incl. "
+                       "close/drop_contents on either side at any point: spsc_no_race, spsc_no_unwritten_slot (also no overwrite of an "
+                       "undelivered slot), spsc_fifo_exactly_once, spsc_undelivered_items_in_slots; the SC-memory statements are the "
+                       "special case spsc_sc_all. no_lost_wakeup / no_lost_wakeup_any_rechecks: the check;register;check(+) vs "
+                       "write;wake handshake over the same machine, for ANY ordering of the condition accesses and ANY notifier program "
+                       "that wakes after its write, with AtomicWaker ASSUMED to be a linearizable AcqRel RMW register. Counterexample "
+                       "theorems show the orderings matter (Relaxed tail store / tail load / head store reach a racy slot access) and that "
+                       "register-after-check or a close without wake lose a wake-up. Tied to the code by the SyncOrderings bridge "
+                       "(Ordering of every atomic op of state.rs/cursor.rs/worker.rs/atomic_waker.rs + order of the load/wake/register "
+                       "calls, re-read from the source on every run), by D (the same step programs run single-threaded vs the real "
+                       "channel), and supported by loom on the real code (bounded; never counted as a proof obligation). A broken bridge "
+                       "triggers a bounded BFS of the RA machine / exhaustive search of the handshake with the orderings and call order "
+                       "NOW in the source; a found schedule is the failing input. Not modelled: SC fences/consume/OOTA, the data path of "
+                       "sync/cursor.rs, socket/ring.rs and wakeup_queue.rs (handshake + orderings only), allocation. OBSERVATION (outside "
+                       "the property text, see notes): State::close touches the header after open.swap and can race with the peer's "
+                       "drop_contents/dealloc.")
     step_extract(ctx, ["sync_orderings"])
     lean_ok = step_lean(ctx, PROP_MODULES, BRIDGES)
     ok, out = cargo_build("vh-core")
@@ -80,6 +91,30 @@ def run(ctx):
         else:
             ctx.oblige("correspond", "D:vh-core/spsc: lean driver missing, differential run not possible", False, "")
     run_loom(ctx)
+    header_observation(ctx)
+
+
+def header_observation(ctx):
+    """not a violation of the property text (slots / order / wake-ups): reported as an observation"""
+    if not os.path.exists(DRIVER):
+        return
+    try:
+        rc, outs, err = run_lines([DRIVER, "spsc-ra-search"], ["search-uaf 2 20000"], timeout=1800)
+    except subprocess.TimeoutExpired:
+        return
+    ans = outs[0] if outs else ""
+    ctx.extra["model_observations"] = {"spsc-ra-search search-uaf 2 20000": ans}
+    if ans.startswith("ok use-after-free"):
+        ctx.notes.append(
+            "OBSERVATION (not part of the property text; theorem close_wake_after_free_counterexample, "
+            "spsc_only_failure_is_header_use_after_free): quic/s2n-quic-core/src/sync/spsc/state.rs:366-372 `State::close` performs "
+            "`self.open.swap(false, SeqCst)` and THEN `self.receiver.wake()` / `self.sender.wake()` on the AtomicWaker that lives in the "
+            "heap `Header`; if the peer swaps (was_open=false) and runs `drop_contents` (state.rs:472 `self.header.as_mut()`, :480 "
+            "`dealloc`) in between, that wake uses the header concurrently with / after its deallocation. Model schedule: "
+            + ans[len("ok use-after-free "):] + ". Witnessed on the REAL code with miri (hooks/spsc_close_miri: two threads dropping "
+            "Sender and Receiver; `cargo +nightly miri run` with -Zmiri-many-seeds=0..48 -Zmiri-preemption-rate=0.3 reports "
+            "`Undefined Behavior: Data race ... retag read (drop(send)) vs retag write of Header in drop_contents (state.rs:472)` for many "
+            "of the seeds, e.g. 34, 36, 39, 41-43, 45-47). loom cannot see it (the header is allocated with alloc::alloc, not loom-tracked).")
 
 
 # ---------------------------------------------------------------------------------------
@@ -229,7 +264,13 @@ def run_loom(ctx):
                           {"kind": "loom", "test": r["test"], "cmd": base_cmd + r["test"], "output": r.get("output", ""),
                            "env": {k: env[k] for k in ("RUSTFLAGS", "LOOM_MAX_PREEMPTIONS")}}, found_input=True)
     detail = "; ".join(f"{r['test']}: {r['result']}" + (f" after {timeout}s" if r["result"] == "timeout" else "") for r in bad)
-    ctx.oblige("loom", f"crate loom scenarios pass (bounded model checking; support only) [{len(names)} scenarios, "
-               f"LOOM_MAX_PREEMPTIONS={env['LOOM_MAX_PREEMPTIONS']}]", not bad, (detail + "\n" + "\n".join(r.get("output", "") for r in bad)[-1500:]) if bad else "")
-    if bad and all(r["result"] == "FAILED" for r in bad):
+    info["passed"] = not bad
+    if not bad:
+        # support only: a passing bounded exploration is NOT counted as a discharged proof obligation
+        ctx.notes.append(f"loom (support, not counted): {len(names)} scenarios of the real code pass with "
+                         f"LOOM_MAX_PREEMPTIONS={env['LOOM_MAX_PREEMPTIONS']} ({sum(r['executions'] or 0 for r in results)} executions)")
+        return
+    ctx.oblige("loom", f"crate loom scenarios pass (bounded model checking of the real code) [{len(names)} scenarios, "
+               f"LOOM_MAX_PREEMPTIONS={env['LOOM_MAX_PREEMPTIONS']}]", False, detail + "\n" + "\n".join(r.get("output", "") for r in bad)[-1500:])
+    if all(r["result"] == "FAILED" for r in bad):
         ctx.obligations[-1]["explained"] = True     # each failure has its own replayable violation
